@@ -16,7 +16,11 @@ func UsingColumn[FILTERS any, ENTITY any](ctx context.Context,
 	query ColumnPaginatedQuery[FILTERS]) (*api.Cursor[ENTITY], error) {
 	ret := make([]ENTITY, 0)
 
-	sb = sb.Limit(int(query.PageSize) + 1) // Fetch one additional item to find the next token
+	// a page size of 0 means no limit, as for offset pagination (a limit of 0+1 would hand out an empty page whose next
+	// token stands for the same page again)
+	if query.PageSize > 0 {
+		sb = sb.Limit(int(query.PageSize) + 1) // Fetch one additional item to find the next token
+	}
 	order := query.Order
 	if query.Reverse {
 		order = order.Reverse()
@@ -70,7 +74,7 @@ func UsingColumn[FILTERS any, ENTITY any](ctx context.Context,
 		paginationIDs = append(paginationIDs, paginationID)
 	}
 
-	hasMore := len(ret) > int(query.PageSize)
+	hasMore := query.PageSize > 0 && len(ret) > int(query.PageSize)
 	if hasMore {
 		ret = ret[:len(ret)-1]
 	}
